@@ -380,6 +380,8 @@ impl DOPRI5 {
                         nonstiff = 0;
                         iasti += 1;
                         if iasti == 15 {
+                            // The step is given up, not delivered: it does not count as accepted
+                            steps.accepted -= 1;
                             status = Status::ProbablyStiff;
                             break;
                         }
